@@ -488,9 +488,12 @@ def _worker_run(arg):
     signal.setitimer(signal.ITIMER_REAL, SCENARIO_TIMEOUT_S)
     try:
         return run_scenario(scn, tid)
-    except ScenarioTimeout:
+    except (ScenarioTimeout, MemoryError) as e:
+        # the evaluation ran out of time or of memory although every call has an op budget: its cost is not bounded by the budget
         TRACER.active = False
-        return {'tid': tid, 'harness_error': 'TIMEOUT', 'timeout': True, 'sources': [(c.get('src'), c.get('max')) for c in scn.get('calls', [])][:6]}
+        return {'tid': tid, 'harness_error': 'TIMEOUT' if isinstance(e, ScenarioTimeout) else 'MEMORY', 'timeout': True,
+                'resource': 'time' if isinstance(e, ScenarioTimeout) else 'memory',
+                'sources': [(c.get('src'), c.get('max')) for c in scn.get('calls', [])][:6]}
     except BaseException as e:   # noqa
         return {'tid': tid, 'harness_error': ''.join(traceback.format_exception_only(type(e), e))[-500:]}
     finally:
